@@ -312,6 +312,22 @@ class EngineSim(TreeSim):
         self._didx = {d: i - 1 for i, d in enumerate(self.dates)}
         self.ti = 0
         self.strats = trees.strategies(self.plan["tree"])
+        # phase marker: is the date's algo run (Backtest: update, run, update) in progress?
+        self.in_run = False
+        root_run = self.root.run
+        sim = self
+
+        def run_marked():
+            sim.in_run = True
+            try:
+                return root_run()
+            finally:
+                sim.in_run = False
+
+        try:
+            self.root.run = run_marked
+        except AttributeError:
+            pass
         if self.light:
             taps.set_current(None)
             return
@@ -783,6 +799,14 @@ def gen_bankrupt_plan(rng, tier="quick"):
     if rng.random() < 0.3:
         root["algos"].insert(1, chaos_spec(rng, ndates, flows=False))
     cfg = {"integer": rng.random() < 0.5, "comm": commod.gen(rng, feedmod.min_unit(fspec["prices"])) if rng.random() < 0.5 else None, "capital": rng.choice([1e5, 1e6]), "fi": False, "obs_price": False, "obs_eod": rng.random() < 0.5, "profile": "bankrupt", "outcome": outcome}
+    if rng.random() < 0.12:
+        # equity driven through zero by a withdrawal in the middle of the date's algo run (not by the market before it): the
+        # liquidation then happens inside the run, with the rest of the stack (and the sub-strategies' stacks) still to come
+        dd = rng.randint(1, ndates - 1)
+        acts = [None] * ndates
+        acts[dd] = [rng.choice(["flow", "flow", "flow_deferred"]), -round(cfg["capital"] * rng.uniform(1.3, 3.0), 2)]
+        root["algos"] = [{"a": "Spy", "id": 0}, {"a": "Chaos", "acts": acts}, {"a": "RunDaily"}] + [a for a in root["algos"] if a.get("a") not in ("Spy", "Chaos", "RunOnce", "RunOnDate", "RunMonthly") or a.get("run_always")]
+        fired["withdrawal_beyond_equity_mid_run"] = 1
     if rng.random() < 0.15:
         # started without capital and funded later by a flow: worth exactly zero until then (not negative: never flagged)
         cap = cfg["capital"]
@@ -799,6 +823,13 @@ def check_terminal(sim):
     tb = sim.bankrupt_at
     if tb is None or not root.bankrupt:
         return
+    # trades made after the liquidation (same date included): nothing may trade on a liquidated tree
+    if sim.bankrupt_seq is not None:
+        after = [e for e in sim.log if e[0] > sim.bankrupt_seq and e[1] == "trade"]
+        if after:
+            e = after[0]
+            sim.violation("bankrupt_traded_after", "bankrupt and liquidated on date #%d (event %d), yet %d trade(s) followed, first: %s %r" % (tb, sim.bankrupt_seq, len(after), "/".join(e[2]), e[3]), {"liquidated_mid_run": bool(sim.bankrupt_mid_run)})
+            return
     late = [r for r in sim.spy_log if r[3] and r[2] > tb]
     if late:
         sim.violation("bankrupt_algos_ran", "bankrupt on date #%d but the backtest ran algo %r of %s on date #%d" % (tb, late[0][0], late[0][1], late[0][2]), {})
